@@ -10,7 +10,9 @@
 
    Only statements; proofs are in Proofs/Walk.v.  The model (Model/Walk.v) is
    [main_run q fs argv stdin : list event * status] over file-system trees [fs] (listing of
-   the working directory; entry kinds Reg, Dir, LinkFile, LinkDir, LinkNone, Fifo, Sock);
+   the working directory; entry kinds Reg, Dir, LinkFile, LinkDir, LinkNone, Fifo, Sock,
+   LinkOther (a link, or chain of links, whose resolved target is a FIFO, a socket, a character
+   device, a loop or an unreadable file), NoPerm (a regular file that cannot be opened));
    [repaired] is the code as it is now, [pinned] the code before the repairs F9, F10, F10b.
    [body] is the text printInfo writes for a file of a given name and content (the subject of
    the other properties): the theorems hold for every such function. *)
@@ -34,13 +36,29 @@ Theorem C10_enumeration_complete : forall ch d,
 Proof. exact dfs_perm. Qed.
 Print Assumptions C10_enumeration_complete.
 
+(* which entries are enumerated: a directory is descended into (a link to one is not); any other
+   entry is listed exactly when its RESOLVED target -- what os.Stat finds at the end of the chain
+   of links -- is a regular file, whatever the kind of the entry itself *)
+Theorem C10_enumeration_by_resolved_target : forall n f,
+  files_of n f =
+  match n with
+  | Dir name ch => flat_map (fun c => files_of c (path_join f name)) ch
+  | _ => match stat n with
+         | SReg c => [(path_join f (node_name n), c)]
+         | _ => []
+         end
+  end.
+Proof. exact files_of_by_target. Qed.
+Print Assumptions C10_enumeration_by_resolved_target.
+
 (* ---- every regular file once, in order ----
    For every file system, every argument list of regular files and directories
    ([arg_ok]: a directory's tree is at most max_depth directories high — the named exclusion
    of finding F11 — and no path in it reaches PATH_MAX), the run with -r ends with status 0 and
    the reports on standard output are, in this order, exactly the sorted depth-first
    enumeration of each argument.  No hypothesis on the kinds of the other entries: FIFOs,
-   sockets, dangling links and links to directories may occur anywhere. *)
+   sockets, dangling links, links to directories, links (chains of links) to FIFOs, sockets,
+   devices, loops of links and unreadable files may occur anywhere. *)
 Theorem C10_each_once_in_order : forall fs d rest stdin,
   plain_arg d = true -> forallb (arg_ok fs) (d :: rest) = true ->
   exists es, main_run repaired fs (bs "-r" :: d :: rest) stdin = (es, Exit 0) /\
@@ -84,6 +102,17 @@ Theorem C10_concat_of_singles : forall body argv0 fs d rest stdin,
 Proof. exact scan_stdout. Qed.
 Print Assumptions C10_concat_of_singles.
 
+(* one directory, every entry kind anywhere in it: the scan output is the concatenation of the
+   single-file reports over exactly the entries whose resolved target is a regular file
+   (C10_enumeration_by_resolved_target), depth first, names in byte order *)
+Theorem C10_concat_of_singles_one_directory : forall body argv0 fs d ch stdin,
+  plain_arg d = true -> resolve fs d = SDir ch ->
+  (Z.of_nat (height_in ch) <= max_depth)%Z -> paths_ok_in ch d = true ->
+  stdout_of body argv0 (fst (main_run repaired fs [bs "-r"; d] stdin))
+  = concat (map (report_text body) (dfs_sorted_regular_files ch d)).
+Proof. exact scan_one_directory_stdout. Qed.
+Print Assumptions C10_concat_of_singles_one_directory.
+
 Theorem C10_single_file_run : forall body argv0 q fs p c stdin,
   plain_arg p = true -> resolve fs p = SReg c ->
   main_run q fs [p] stdin = ([Report p c], Exit 0) /\
@@ -106,9 +135,11 @@ Print Assumptions C10_enumerated_paths_resolve.
 (* ---- bad entries ----
    (1) the repaired code never crashes, whatever the tree and the arguments, and the only way
        to block is a FIFO named explicitly as an argument (like cat);
-   (2) an entry that is a FIFO, a socket, a dangling link or a link to a directory changes
-       nothing in what a scan of its directory reports (together with C10_each_once_in_order:
-       entries after it are still reported). *)
+   (2) an entry that is not a directory and whose resolved target is not a regular file (a FIFO,
+       a socket, a dangling link, a link to a directory, a link or chain of links to a FIFO /
+       socket / character device / itself, an unreadable file) changes nothing in what a scan
+       of its directory reports (together with C10_each_once_in_order: entries after it are
+       still reported). *)
 Theorem C10_bad_entries : forall fs argv stdin es st,
   main_run repaired fs argv stdin = (es, st) ->
   (forall p, st <> Crashed p) /\
@@ -145,6 +176,22 @@ Theorem C10_bad_entries_witnesses_repaired : forall bad,
   = ([Report (bs "d/a") (bs "x"); LogLine (bs "d/m"); Report (bs "d/z") (bs "y")], Exit 0).
 Proof. exact repaired_on_witnesses. Qed.
 Print Assumptions C10_bad_entries_witnesses_repaired.
+
+Theorem C10_bad_link_targets_witnesses : forall t,
+  main_run repaired (witness_listing (LinkOther (bs "m") t)) [bs "-r"; bs "d"] []
+  = ([Report (bs "d/a") (bs "x"); LogLine (bs "d/m"); Report (bs "d/z") (bs "y")], Exit 0) /\
+  main_run repaired (witness_listing (NoPerm (bs "m"))) [bs "-r"; bs "d"] []
+  = ([Report (bs "d/a") (bs "x"); LogLine (bs "d/m"); Report (bs "d/z") (bs "y")], Exit 0).
+Proof. exact repaired_on_link_witnesses. Qed.
+Print Assumptions C10_bad_link_targets_witnesses.
+
+(* a scan that opens what a link leads to without looking at the resolved target (the code before
+   repair F10 did) blocks on a link to a FIFO: z is never reported *)
+Theorem C10_link_to_fifo_refuted_before_repair :
+  main_run pinned (witness_listing (LinkOther (bs "m") OFifo)) [bs "-r"; bs "d"] []
+  = ([Report (bs "d/a") (bs "x")], Blocked (bs "d/m")).
+Proof. exact pinned_link_to_fifo_blocks. Qed.
+Print Assumptions C10_link_to_fifo_refuted_before_repair.
 
 (* ---- refusals ----
    Arguments that are regular files are reported; the first directory met without -r, or the
@@ -189,6 +236,58 @@ Theorem C10_stdin_hypothesis_examples :
   name_neutral (bs "d/authorized_keys") = false.
 Proof. vm_compute. repeat split; reflexivity. Qed.
 Print Assumptions C10_stdin_hypothesis_examples.
+
+(* ---- standard input is a stream ----
+   Inspect reads standard input with io.ReadAll(io.LimitReader(f, MaxReadSize)).  A stream is the
+   list of byte strings the successive Read calls return before io.EOF ([chunks]; a chunk may be
+   empty: Read returned 0, nil).  Whatever the chunk boundaries -- the writer's write calls, its
+   pauses, the pipe buffer, the room the read loop offers -- the loop delivers the first
+   MaxReadSize bytes of the concatenation, so two streams that carry the same bytes are described
+   alike, and a stream of at most MaxReadSize bytes is described like a file holding them. *)
+Theorem C10_stdin_read_loop : forall chunks cap,
+  read_all cap chunks = take_n cap (concat chunks) /\
+  take_n cap (concat chunks) = firstn (N.to_nat cap) (concat chunks) /\
+  (N.of_nat (length (concat chunks)) <= cap -> read_all cap chunks = concat chunks).
+Proof.
+  intros. split; [apply read_all_concat|split; [apply take_n_firstn|apply read_all_whole]].
+Qed.
+Print Assumptions C10_stdin_read_loop.
+
+Theorem C10_stdin_chunking_irrelevant : forall q fs argv chunks1 chunks2,
+  concat chunks1 = concat chunks2 ->
+  main_run_stream q fs argv chunks1 = main_run_stream q fs argv chunks2.
+Proof. exact stream_chunking_irrelevant. Qed.
+Print Assumptions C10_stdin_chunking_irrelevant.
+
+Theorem C10_stdin_stream_as_file : forall sniff parse argv0 q fs fs' r rest p chunks stdin',
+  match rest with [] => True | a :: _ => a = [] \/ a = [45] end ->
+  plain_arg p = true -> name_neutral p = true -> resolve fs' p = SReg (concat chunks) ->
+  N.of_nat (length (concat chunks)) <= max_read_size ->
+  stdout_of (dispatch_body sniff parse) argv0 (fst (main_run_stream q fs (argv_of r rest) chunks))
+  = drop (length p + 2) (stdout_of (dispatch_body sniff parse) argv0 (fst (main_run q fs' [p] stdin'))).
+Proof. exact stream_as_file. Qed.
+Print Assumptions C10_stdin_stream_as_file.
+
+(* every way of cutting a byte string into pieces is a stream of these bytes (the check's cases) *)
+Theorem C10_stdin_pieces : forall lens data, concat (cut_at lens data) = data.
+Proof. exact cut_at_concat. Qed.
+Print Assumptions C10_stdin_pieces.
+
+(* a stream with empty reads and pieces ending inside a token; and why the statement is one about
+   the read loop: a loop that takes a Read which does not fill the offered room for the end of
+   the input (right for regular files) loses the rest of a pipe *)
+Theorem C10_stdin_example :
+  read_all max_read_size example_chunks = bs "123e4567-e89b-12d3-a456-426614174000" ++ [10] /\
+  read_all 10 example_chunks = bs "123e4567-e" /\
+  read_until_short 4096 example_chunks = bs "123e4567-e89b-12d3-".
+Proof. exact example_chunks_read. Qed.
+Print Assumptions C10_stdin_example.
+
+Theorem C10_stdin_short_read_refuted : exists chunks,
+  N.of_nat (length (concat chunks)) <= max_read_size /\
+  read_all max_read_size chunks = concat chunks /\ read_until_short 4096 chunks <> concat chunks.
+Proof. exact short_read_reader_refuted. Qed.
+Print Assumptions C10_stdin_short_read_refuted.
 
 (* ---- the depth limit (finding F11, kept) ----
    Without the hypothesis on the height the property fails: a regular file max_depth+1
